@@ -10,8 +10,8 @@ RULE = ("program = one design (70% generated 'translatable' DesignSpec: operator
         "findings) translated by the real YosysTranslationPass (flat port map derived from the port type shapes and checked), then co-simulated (svsim vs PyMTL) for 8..60 cycles of "
         "seeded inputs with glitches and mid-run resets under 2 seeded svsim process orders; non-trivial = translation "
         "accepted, text parsed/elaborated/statically clean, and >=1 non-zero output value compared; distinct = case digest")
-TIERS = {"quick": {"runs": 480, "budget_s": 110, "chunk": 4},
-         "thorough": {"runs": 40000, "budget_s": 1800, "chunk": 8}}
+TIERS = {"quick": {"runs": 1280, "budget_s": 110, "chunk": 4},
+         "thorough": {"runs": 200000, "budget_s": 1800, "chunk": 8}}
 REAL = ["BehavioralRTLIRGen/TypeCheck passes", "StructuralRTLIRGen", "YosysBehavioralTranslatorL1-L5",
         "YosysStructuralTranslatorL1-L4", "YosysTranslationPass (file I/O bound to an in-memory directory)",
         "PyMTL simulation of the same design (DefaultPassGroup)"]
